@@ -833,6 +833,57 @@ def rand_op(rng):
     return rng.choice(['flush', 'clrsteps', 'selftest', 'reset'])
 
 
+def stream_universe(rng, tier, ctors=('i2c', 'i2c', 'i2c', 'spi', 'spi3'), pin_faults=False):
+    """ONE stream shared by (almost) all properties: random histories mixing every kind of call -
+    requests, repeated requests, enables, getters, data reads, FIFO reads of odd sizes, power-down /
+    power-up of the FIFO, commands, self tests, resets - over all three constructors, with bus
+    faults on random calls (I2C: any raw position, also two in a row; SPI: the first data operation).
+    Each property judges it with its own predicate: a trigger that needs `state x call x fault` in
+    a combination no dedicated stream has is still met here."""
+    out = []
+    sizes = [0, 1, 2, 7, 15, 33, 64, 255, 256, 257, 300, 1024, 1025, 1030]
+    for i in range(QS * 400 if tier == 'quick' else 12000):
+        ctor = rng.choice(ctors)
+        ops = reach_state(rng, rich=rng.random() < 0.5) if rng.random() < 0.7 else []
+        last_req = None
+        for _ in range(rng.randint(4, 16)):
+            r = rng.random()
+            if r < 0.40:
+                op = last_req = rand_request(rng)
+            elif r < 0.46 and last_req:
+                op = last_req                                   # the same request again
+            elif r < 0.52:
+                op = 'int drdy:%d fwm:%d ffull:%d orient:%d step:%d latch:%d' % tuple(rng.randrange(2) for _ in range(6))
+            elif r < 0.66:
+                op = rng.choice(GETTERS)
+            elif r < 0.74:
+                op = 'rfifo:%d' % rng.choice(sizes)
+            elif r < 0.79:
+                op = 'fifo rddis:%d' % rng.randrange(2)
+            elif r < 0.84:
+                op = rng.choice(['flush', 'clrsteps'])
+            elif r < 0.90:
+                op = 'selftest'
+            elif r < 0.96:
+                op = 'reset'
+            else:
+                op = 'acc scale:%d odr:%d' % (rng.randrange(4), rng.choice([3, 4, 3, 4, 0, 6]))
+            f = rng.random()
+            if ctor == 'i2c':
+                if f < 0.14:
+                    op += ' !%d' % rng.randrange(20 if op.startswith('selftest') else 6)
+                elif f < 0.17:
+                    k = rng.randrange(8)
+                    op += ' !%d,%d' % (k, k + 1)
+            elif f < 0.10:
+                op += ' !%d' % (rng.randrange(9) if pin_faults else 1)
+            ops.append(op)
+        hdr = 'low=%s pos=%s neg=%s fifo=%s' % (rand_low(rng), hexs(sample6(rng, True)), hexs(sample6(rng, False)),
+                                              hexs([rng.randrange(256) for _ in range(40)]))
+        out.append(case('u%d' % i, ctor, ops, hdr))
+    return out
+
+
 def stream_reset(rng, tier):
     """C11: (history; reset; follow-up) and (fresh; follow-up) as twin cases `r<k>a` / `r<k>b`"""
     out = []
